@@ -1,9 +1,9 @@
-(* Finding C18/1 (D17, KNOWN): AwaitCsvAction / AwaitPaymentOrCsvAction call TxWatcher.AddWaitForCsvTx inline.  BlockchainRpcTxWatcher.AddWaitForCsvTx calls the CSV callback synchronously when
+(* Finding C18/1 (D17, REPAIRED - this file keeps the pre-repair call structure as a witness): AwaitCsvAction / AwaitPaymentOrCsvAction call TxWatcher.AddWaitForCsvTx inline.  BlockchainRpcTxWatcher.AddWaitForCsvTx calls the CSV callback synchronously when
    the opening transaction is already past the CSV; the callback (SwapService.OnCsvPassed) calls SendEvent on the same
    swap, whose mutex is held by the SendEvent that is running the action: the goroutine waits for itself.
-   The call structure is restated as a skeleton of its own; (3) below is about the generated skeleton.
-   Not repaired here: registering from a goroutine in the action reorders the effects every state-machine model and
-   harness of this framework observes, notifying asynchronously in the watcher changes what C20 models; see the report.
+   The call structure is restated as a skeleton of its own.
+   Repaired in the watcher: the callback of an already matured transaction runs in its own goroutine, the transaction
+   stays on the watch list until the callback succeeded (the C20 harness waits for that goroutine).
      f0 SendEvent      : Acq m; Call f1; Rel m         (m = swap.SwapStateMachine.mutex, lock 0)
      f1 AwaitCsvAction : Call f2
      f2 AddWaitForCsvTx: Call f3                        (transaction already mature: csvPassedCallback)
@@ -33,12 +33,3 @@ Proof.
   destruct c18_self_deadlock_prefix_refuted as [c [Hr Hd]].
   exact (lock_order_sound_prog p1 A rk H [0] c Hr Hd).
 Qed.
-
-(* (3) on the skeleton generated from the code the check fails, with the computed certificates, as soon as the call is
-   not taken out; the only edge on a cycle is the self edge of the swap mutex *)
-Theorem c18_full_check_refuted : c18_full_ok = false.
-Proof. vm_compute. reflexivity. Qed.
-
-Theorem c18_full_cycle_is_the_swap_mutex_self_edge :
-  c18_cycle_edges_full = [("swap.SwapStateMachine.mutex"%string, "swap.SwapStateMachine.mutex"%string)].
-Proof. vm_compute. reflexivity. Qed.
